@@ -52,10 +52,26 @@ class Unit:
         r = re.compile(rx)
         return [s for s in self.calls(lambda c: r.search(c["path"]))]
 
-    def per_element(self, site):
+    def per_element(self, site, _depth=0):
         """Is the site executed once per element of some iteration?  'closure' when its body
         is (nested in) a closure handed to an iterator adaptor, 'loop' when inside a natural
-        loop of its body, else None."""
+        loop of its body, 'helper' when it sits in a helper function all of whose call sites in
+        the unit are per-element, else None."""
+        r = self._per_element_local(site)
+        if r is not None or _depth > 4:
+            return r
+        # a helper function of the unit: per-element iff every call site of it is
+        root = site.body
+        while root.kind == "closure" and root.creator():
+            root = root.creator()[0]
+        if root.key == self.root.key or root.kind != "fn":
+            return None
+        callers = [s for s in self.calls(lambda c: c.get("key") == root.key)]
+        if callers and all(self.per_element(s, _depth + 1) is not None for s in callers):
+            return "helper"
+        return None
+
+    def _per_element_local(self, site):
         b = site.body
         for (h, blocks, srcs) in PN.loops_of(b):
             if site.bi in blocks:
